@@ -350,7 +350,7 @@ func prefix(x []int64, n int) []int64 {
 
 func doReplay(t *testing.T, job *Job) {
 	rf := job.Replay
-	res, _ := runOne(t, rf.Case, rf.RunSeed, rf.Tape, true, job.Trace)
+	res, _ := runOne(t, rf.Case, rf.RunSeed, rf.Tape, os.Getenv("DSIM_FREE_REPLAY") == "", job.Trace) // DSIM_FREE_REPLAY: a hand-written case under a fresh random schedule (experiments)
 	emit(map[string]any{"t": "replay", "result": res})
 	if res.Dirty {
 		out.Flush()
